@@ -354,3 +354,11 @@ package compile
 //@   ensures forall(k, 0, node_nchildren_of(n, parse.NodePattern), result[len(result)-1][k].Regexp == node_argpattern(node_child_of(n, parse.NodePattern, k)))
 //@   loop 0 invariant len(ps) == loopidx + 1 && isfresh(ps) && forall(k, 0, len(ps), ps[k].Regexp == node_argpattern(node_child_of(n, parse.NodePattern, k)))
 //@   loop 0 invariant len(looprange) == node_nchildren_of(n, parse.NodePattern) && forall(i, 0, len(looprange), looprange[i] == node_child_of(n, parse.NodePattern, i) && looprange[i] != nil)
+
+// Default case under a filter (C20): a choice's default must name one of its cases, unless the choice has no default
+// or the filter in force does not keep the choice itself (then its cases were pruned with it).
+//@ func (*Compiler).checkChoiceDefaultCaseExists
+//@   requires c != nil
+//@   ensures iff(result == nil, !is(sn, schema.Choice) || sch_defaultcase(sn) == "" || (c.filter != nil && !apply_filter(c.filter, sn)) ||
+//@           exists(j, 0, sch_nchoices(sn), node_name(sch_choice(sn, j)) == sch_defaultcase(sn)))
+//@   loop 0 invariant forall(j, 0, loopidx+1, node_name(sch_choice(sn, j)) != sch_defaultcase(sn))
